@@ -91,6 +91,10 @@ class World:
                 return "set_target raised %s instead of accepting or refusing the target with a ValueError" % type(e).__name__
         elif op == "edit":
             self.tobj[ev["o"]].points[...] = self.targets[ev["v"]]
+        elif op == "perturb":
+            al = self.als[ev["a"] - 1]
+            v = np.array(al.as_vector(), dtype=float)
+            al.from_vector_inplace(v + np.array([0.3, 0.7, -0.2, 0.5, 0.25, -0.4, 0.1, 0.6])[:len(v)])
         elif op == "pinv":
             al = self.als[ev["a"] - 1]
             inv = al.pseudoinverse()
@@ -141,6 +145,11 @@ class World:
             tag = "alignment %d (%s)" % (i + 1, cfg)
             if not np.array_equal(al.source.points, self.src_pts):
                 return tag + ": source changed"
+            if view["pert"]:
+                # parameters overwritten by hand: not a fit of anything; its target is its own aligned source (C05's clause)
+                if not L.close(al.target.points, al.apply(self.src_pts), 1e-9):
+                    return tag + ": after a parameter update the target is not the aligned source"
+                continue
             tcur = self.targets[view["tval"]]
             if view["tobj"] and al.target is not self.tobj[view["tobj"]] and not np.array_equal(al.target.points, tcur):
                 return tag + ": target is not the point set it was (re)targeted to"
